@@ -103,6 +103,45 @@ def spacer_column_obligations(ctx, r2, rid):
              lt.loc(), why_fail=repr(got_m)[:200])
 
 
+def normal_sheet_obligations(ctx, rule, rid):
+    """The two Excel sheet readers themselves (header row -> rows), evaluated on a model sheet with an unnamed spacer
+    column: which header list reaches the row reader decides under which header each cell is filed."""
+    repo = ctx.repo
+
+    def cell(v):
+        return Obj(None, {"value": v, "ctype": ExtVal("xlrd.XL_CELL_TEXT") if isinstance(v, str) else ExtVal("xlrd.XL_CELL_EMPTY")}, name=f"cell:{v}")
+    grid = [["type", None, "name", "label"], ["text", "junk", "q1", "L1"], ["text", None, "q2", "L2"]]
+    want_rows = [{"type": "text", "name": "q1", "label": "L1"}, {"type": "text", "name": "q2", "label": "L2"}]
+    # xlsx
+    fx = repo.func("pyxform.xls2json_backends:xlsx_to_dict.xlsx_to_dict_normal_sheet")
+    cells = [[cell(v) for v in row] for row in grid]
+    sheet = Obj(None, {"rows": iter([tuple(r) for r in cells]),
+                       "iter_rows": lambda i, a, k, n: iter([tuple(r[: k.get("max_col", len(r))]) for r in cells[k.get("min_row", 1) - 1:]])}, name="xlsx sheet")
+    it = ctx.interp(rid)
+    it.reset([])
+    try:
+        rows_x, hdr_x = it.call_function(fx, [sheet], {}, {"xlsx_clean_cell": native(lambda i, a, k, n: (k.get("cell") or a[0]).attrs["value"])}, fx.node)
+        got = (rows_x, hdr_x)
+    except Raised as e:
+        got = f"raises {e.exc_name}{e.exc_args}"
+    rule.check(isinstance(got, tuple) and got[0] == want_rows and got[1] == [{"type": None, "name": None, "label": None}], "xlsx_to_dict:sheet with a spacer column",
+               "cells are filed under the header of their own column", fx.loc(), why_fail=repr(got)[:220])
+    # xls
+    fl = repo.func("pyxform.xls2json_backends:xls_to_dict.xls_to_dict_normal_sheet")
+    cells2 = [[cell(v) for v in row] for row in grid]
+    wsheet = Obj(None, {"get_rows": lambda i, a, k, n: iter([tuple(r) for r in cells2]), "nrows": len(cells2),
+                        "cell": lambda i, a, k, n: cells2[a[0]][a[1]]}, name="xls sheet")
+    it = ctx.interp(rid, hooks={"fnname:xls_clean_cell": lambda i, a, k, n: (k.get("cell") or a[2]).attrs["value"]})
+    it.reset([])
+    try:
+        rows_l, hdr_l = it.call_function(fl, [Obj(None, {"datemode": 0}, name="wb"), wsheet], {}, {"xls_clean_cell": native(lambda i, a, k, n: (k.get("cell") or a[2]).attrs["value"])}, fl.node)
+        got = (rows_l, hdr_l)
+    except Raised as e:
+        got = f"raises {e.exc_name}{e.exc_args}"
+    rule.check(isinstance(got, tuple) and got[0] == want_rows and got[1] == [{"type": None, "name": None, "label": None}], "xls_to_dict:sheet with a spacer column",
+               "cells are filed under the header of their own column", fl.loc(), why_fail=repr(got)[:220])
+
+
 def run(ctx):
     repo = ctx.repo
     rules = []
@@ -188,6 +227,7 @@ def run(ctx):
     r2.check(res.get("survey") == [{"type": "text"}] and res.get("survey_header") == [{"type": None, "name": None}], "csv_to_dict:strips cells, drops empty cells", "cell text is stripped and empty cells are omitted",
              pc.loc(), why_fail=repr(res))
     spacer_column_obligations(ctx, r2, "C12.R2")
+    normal_sheet_obligations(ctx, r2, "C12.R2")
     # md
     mt = ctx.func("pyxform.xls2json_backends:_md_table_to_ss_structure", "C12.R2")
     # only "\n" separates rows: the other characters str.splitlines() treats as line ends are legal cell content
@@ -324,6 +364,16 @@ def run(ctx):
         out = it.call_function(ger, [], {"headers": ["h"], "rows": rows, "cell_func": native(lambda i, a, k, n: a[0].attrs["value"])}, None, ger.node)
         r3.check(out == [{"h": "x"}] + [{}] * gap + [{"h": "y"}], f"rows[gap={gap}]", "a run of empty rows within the limit keeps the rows after it; trailing empties are trimmed", ger.loc(),
                  why_fail=f"{len(out)} rows")
+    # blank rows directly under the header row count like any other blank row (row numbers in messages are sheet positions)
+    for lead in (1, 2, 5):
+        it.reset([])
+        rows = [(cell(None),)] * lead + [(cell("x"),), (cell(None),), (cell("y"),)] + [(cell(None),)] * 3
+        try:
+            out = it.call_function(ger, [], {"headers": ["h"], "rows": rows, "cell_func": native(lambda i, a, k, n: a[0].attrs["value"])}, None, ger.node)
+        except Raised as e:
+            out = f"raises {e.exc_name}"
+        r3.check(out == [{}] * lead + [{"h": "x"}, {}, {"h": "y"}], f"rows[{lead} blank row(s) under the header]", "leading blank rows are kept as empty rows, each counting one sheet row", ger.loc(),
+                 why_fail=repr(out)[:160])
     tt = ctx.func("pyxform.xls2json_backends:trim_trailing_empty", "C12.R3")
     for lst, n, want in (([1, 2, 3], 0, [1, 2, 3]), ([1, 2, 3], 1, [1, 2]), ([1, 2, 3], 3, [])):
         it.reset([])
@@ -346,6 +396,20 @@ def run(ctx):
     for m in sorted(members):
         if m in cover:
             r4.check(cover[m] in tested, f"convert() input kind {m}", f"is dispatched on (isinstance … {cover[m]})", gdd.loc(), why_fail=f"tested: {sorted(tested)}")
+    # the csv container is standard (RFC 4180) csv: the reader is created with the default dialect - a changed delimiter,
+    # quote or escape character reads the same file as different cells (a backslash is an ordinary character)
+    DIALECT_KW = {"delimiter": ",", "quotechar": '"', "doublequote": True, "skipinitialspace": False, "strict": False, "escapechar": None, "lineterminator": "\r\n"}
+    cd = ctx.func("pyxform.xls2json_backends:csv_to_dict", "C12.R4")
+    readers = [c for f_ in repo.all_functions() if f_.fq.startswith("pyxform.xls2json_backends:csv_to_dict") for c in walk_own(f_.node)
+               if isinstance(c, ast.Call) and norm(c.func) in ("csv.reader", "reader", "csv.DictReader")]
+    r4.check(len(readers) >= 1, "csv_to_dict:reader", "the csv backend reads through csv.reader", cd.loc())
+    for c in readers:
+        odd = []
+        for k_ in c.keywords:
+            okc, v_ = const_str(ctx, cd.module, k_.value)
+            if k_.arg == "dialect" or (k_.arg in DIALECT_KW and not (okc and v_ == DIALECT_KW[k_.arg])):
+                odd.append(f"{k_.arg}={norm(k_.value)}")
+        r4.check(not odd and len(c.args) <= 1, f"csv_to_dict:{norm(c)[:50]}", "created with the default (RFC 4180) dialect", cd.loc(c), why_fail=f"non-default dialect parameters: {odd}")
     # the file is read anew on every conversion: nothing on the read path is memoised (a file replaced under the same
     # name - even with the same modification time - is a different input)
     from ..callgraph import CallGraph as _CG
